@@ -1,5 +1,5 @@
 import Srtla.Drv.Sys
 open Srtla.Drv
 def main : IO UInt32 := do
-  runLoop SysDrv.emptyD SysDrv.stepD (← IO.getStdin) (← IO.getStdout) SysDrv.emptyD
+  runLoop SysDrv.emptyD SysDrv.stepRx (← IO.getStdin) (← IO.getStdout) SysDrv.emptyD
   return 0
